@@ -49,7 +49,9 @@ impl Scopes {
                 (*self.functions).borrow().iter().map(Arc::clone).collect(),
             )),
             len: Arc::new(Cell::new(self.len())),
-            last_variable_index: self.last_variable_index,
+            // the cache is only valid for the scopes it was computed against: the
+            // original may declare a shadowing variable after the closure is taken
+            last_variable_index: None,
         }
     }
 
